@@ -25,8 +25,8 @@ def sh(cmd, cwd, timeout=3000):
 
 
 def worker(k, q, tier, lock):
-    mrepo = "/var/tmp/bn-repo-%d" % k
-    evid = "/var/tmp/bn-evidence-%d" % k
+    mrepo = "/var/tmp/bn-repo-%d-%d" % (os.getpid(), k)
+    evid = "/var/tmp/bn-evidence-%d-%d" % (os.getpid(), k)
     shutil.rmtree(mrepo, ignore_errors=True)
     subprocess.run(["git", "clone", "-q", "/repo", mrepo], check=True)
     while True:
